@@ -1114,13 +1114,21 @@ def Module_binop_expr(self, op, ty, a, b):
     raise SyntaxError(op)
 
 
-def Module_icmp_expr(self, pred, ty, a, b):
+def Module_icmp_expr(self, pred, ty, a, b, insn=False):
     if ty.k == 'ptr':
         if pred == 'eq':
             return '((%s) == (%s))' % (a, b)
         if pred == 'ne':
             return '((%s) != (%s))' % (a, b)
         o = {'ult': '<', 'ule': '<=', 'ugt': '>', 'uge': '>=', 'slt': '<', 'sle': '<=', 'sgt': '>', 'sge': '>='}[pred]
+        if pred[0] == 'u' and insn:
+            # (instruction context only, never inside a constant initialiser) within one object the address order is
+            # the offset order: comparing offsets lets CBMC's simplifier decide
+            # e.g. `yyss + yystacksize - 1 <= yyssp` (bison's stack-overflow test) for constant pointers, where
+            # `(uintptr_t)&x + 2 >= (uintptr_t)&x + 46` stays a symbolic guard; pointers into different objects are
+            # compared by address as before
+            return ('(__CPROVER_same_object((void *)(%s), (void *)(%s)) ? (__CPROVER_POINTER_OFFSET(%s) %s __CPROVER_POINTER_OFFSET(%s))'
+                    ' : ((uintptr_t)(%s) %s (uintptr_t)(%s)))' % (a, b, a, o, b, a, o, b))
         return '((uintptr_t)(%s) %s (uintptr_t)(%s))' % (a, o, b)
     bits = ty.bits
     if pred in ('eq', 'ne', 'ult', 'ule', 'ugt', 'uge'):
@@ -1526,7 +1534,7 @@ class FT(FuncTranslator):
             ty, i = m.parse_type(t, i + 1)
             a, i = self.value(ty, t, i)
             b, i = self.value(ty, t, i + 1)
-            self.emit('%s = %s;' % (res, m.icmp_expr(pred, ty, a, b)))
+            self.emit('%s = %s;' % (res, m.icmp_expr(pred, ty, a, b, insn=True)))
             return
         if op == 'fcmp':
             while t[i][1] in FMF:
